@@ -33,6 +33,7 @@ type c12Op struct {
 	ts      *gen.TypeSpec
 	resMeta string // unmarshal-*: the payload's resource-level meta ("" if none)
 	reps    int    // parse-url: how many times in a row the text is parsed (0 = once)
+	members int    // marshal-softcol: how many members the collection has (0 = two)
 }
 
 func (o c12Op) String() string {
@@ -42,6 +43,10 @@ func (o c12Op) String() string {
 	case "unmarshal-document", "unmarshal-partial", "roundtrip-document", "new-request", "unmarshal-collection":
 		return fmt.Sprintf("%s(%s)", o.kind, o.payload)
 	case "new-set-get", "marshal", "marshal-softcol":
+		if o.members > 0 {
+			return fmt.Sprintf("%s(%s %s x%d)", o.kind, o.typ, gen.ShowVals(o.vals), o.members)
+		}
+
 		return fmt.Sprintf("%s(%s %s)", o.kind, o.typ, gen.ShowVals(o.vals))
 	}
 
@@ -120,6 +125,11 @@ func drawOp(t *rapid.T, ss *gen.SchemaSpec) c12Op {
 		// bytes)
 		if rapid.IntRange(0, 5).Draw(t, "longid") == 0 {
 			op.vals["id"] = strings.Repeat("long-id-", rapid.IntRange(16, 40).Draw(t, "longid-n")) + op.vals["id"].(string)
+		}
+
+		// (now and then a collection of a page's worth of members)
+		if kind == "marshal-softcol" && rapid.IntRange(0, 5).Draw(t, "manymembers") == 3 {
+			op.members = rapid.SampledFrom([]int{17, 33, 64, 65, 100, 129}).Draw(t, "manymembers-n")
 		}
 	case "has-type", "get-type":
 		if rapid.IntRange(0, 3).Draw(t, "unknown") == 0 {
@@ -265,7 +275,7 @@ func runOp(schema *jsonapi.Schema, ss *gen.SchemaSpec, op c12Op, held *[]c12Held
 		col := &jsonapi.SoftCollection{}
 		col.SetType(&typ)
 
-		for i := 0; i < 2; i++ {
+		for i := 0; i < max(2, op.members); i++ {
 			res := typ.New()
 
 			for _, k := range gen.SortedKeys(op.vals) {
